@@ -6,6 +6,6 @@ rm -rf /tmp/mrepo; mkdir -p /tmp/mrepo/ddo; cp -r /repo/ddo/src /tmp/mrepo/ddo/;
 (cd /tmp/mrepo && git init -q . 2>/dev/null; patch -p1 -s < $P)
 D=/verif/.cache/devmut; mkdir -p $D/harness
 python3 /verif/symx/rewrite.py /tmp/mrepo $D $SCHED > /dev/null
-cp /verif/.cache/dev/Cargo.toml $D/; cp /verif/.cache/dev/harness/Cargo.toml $D/harness/
+cp /verif/.cache/dev/Cargo.toml $D/; cp /verif/.cache/dev/harness/Cargo.toml $D/harness/; sed -i "s/^symx = \[\]/symx = []\nsched = []/" $D/harness/Cargo.toml
 cd $D && CARGO_NET_OFFLINE=true cargo build --release --features symx -p harness 2>&1 | grep -E '^error' -A8 | head -40
 echo $D/target/release/harness
